@@ -272,7 +272,7 @@ def c02(chk):
     # the property bounds the duration *ratio*, not the unit: a third of the problems are rescaled in time by a power of two
     # (milliseconds … hours); an absolute threshold anywhere in the solver shows here
     for c in cases[1::3]:
-        f = 2.0 ** chk.rng.choice([-10, -7, -4, 5, 8, 11, 13])
+        f = 2.0 ** chk.rng.choice([-10, -7, -4, 5, 8, 11, 13, 17, 20, 24])
         c.h = [x * f for x in c.h]
         chk.count('rescaled in time')
     # long splines (N beyond any block size or unrolling width): the continuity oracle on the published coefficients needs no model
